@@ -1,6 +1,6 @@
 import Bptk.Core.PyWire
 import Bptk.Gen.C02Table
-/-! Driver for the A1 fragment over the table generated from /repo:  render / parse / denote / tableok -/
+/-! Driver for the A1 fragment over the table generated from /repo:  render / parse / parsemin / denote / tableok -/
 open Bptk.Py
 
 def T : Table := Bptk.C02.Gen.table
@@ -21,6 +21,12 @@ def handle (line : String) : String :=
       | some ts => match parse ts with
         | some p => "sexp " ++ sexp p
         | none => "error"
+      | none => "bad-op"
+  -- the fuel bound of Proofs/PyComplete (`parseExpr_complete`: 2·length + 2 suffices), executed
+  | "parsemin" :: ws => match toksOfWords ws with
+      | some ts => match parseExpr (2 * ts.length + 2) 0 ts with
+        | some (p, []) => "sexp " ++ sexp p
+        | _ => "error"
       | none => "bad-op"
   | ["tableok"] => ";".intercalate (T.map fun t => t.cls ++ "=" ++ tmplDiag Lv t)
   | ["shapes"] => ";".intercalate (T.map fun t => t.cls ++ "=" ++ sexp (shapeOf t))
